@@ -113,6 +113,7 @@ class Engine:
         is_int = [b.lty(l)["k"] in ("int", "bool", "unit", "char", "str") for l in range(n)]
         upvars = upvars or {}
         local_mismatch = []
+        join_mismatch = []       # not cleared between fixpoint rounds: after the first round the variable is already T
 
         def place_deg(pl):
             l = pl["l"]
@@ -179,6 +180,15 @@ class Engine:
         def setl(l, d, pl=None):
             if is_int[l]:
                 d = I
+            old_ = deg[l]
+            if old_ not in ("BOT", Z, T, STATE, I) and d not in ("BOT", Z, T, STATE, I) and not isinstance(old_, tuple) and not isinstance(d, tuple) \
+                    and old_ != d and l == 0 or (old_ not in ("BOT", Z, T, STATE, I) and d not in ("BOT", Z, T, STATE, I)
+                                                 and not isinstance(old_, tuple) and not isinstance(d, tuple) and old_ != d and b.lname(l)):
+                # one variable holds quantities of two different, definite, non-zero homogeneity degrees on different paths
+                # (`result = a / (b * V)` on one arm, `result = c * V` on the other): neither can be "the" extensive value
+                ev = (b.path, b.file_line(), show(old_), show(d))
+                if ev not in join_mismatch:
+                    join_mismatch.append(ev)
             nd = join(deg[l], d)
             if nd != deg[l]:
                 deg[l] = nd
@@ -529,7 +539,7 @@ class Engine:
         ret = deg[0]
         if ret == "BOT":
             ret = I
-        for m in local_mismatch:
+        for m in local_mismatch + join_mismatch:
             if m not in self.mismatch:
                 self.mismatch.append(m)
         if getattr(self, "debug", None) and any(x in b.path for x in self.debug):
